@@ -230,6 +230,27 @@ def run_rtcalls(P, rep, only=None, rule="R-RTCALLS"):
         fn = fns[0]
         pr = Profile(P, fn)
         got = {m for (m, r, st) in pr.trait_calls(RUNTIME)}
+        # private free helper functions of the tag's crate that are handed the runtime count as the tag itself
+        seen_h, work = set(), [b for b, _ in pr.bodies]
+        while work:
+            body = work.pop()
+            for bi, t in P.calls(body):
+                if not t.get("f"):
+                    continue
+                for tg in P.callee_targets(t, body.crate):
+                    g = P.fns.get(tg)
+                    if g is None or g.id in seen_h or g.impl or g.kind != "fn" or g.crate != fn.crate:
+                        continue
+                    if not any("dyn liquid_core::runtime::runtime::Runtime" in P.local_ty(g, i + 1) for i in range(g.argc)):
+                        continue
+                    seen_h.add(g.id)
+                    hb = [g] + [c for c in P.fns.values() if c.kind == "closure" and c.root == g.id]
+                    for b2 in hb:
+                        for _, t2 in P.calls(b2):
+                            f2 = t2.get("f")
+                            if f2 and f2.get("trait") == RUNTIME:
+                                got.add(f2["id"].rsplit("::", 1)[1])
+                    work += hb
         site = ty.rsplit("::", 1)[-1] + "::render_to"
         if got != want:
             rep.viol(rule, site, P.where(fn),
